@@ -11,10 +11,13 @@ Mirrors, in the order of the Rust code:
 * `AluExtMulKind::resolve`;
 * AIR reconstruction in `verify` (Const, Public, ALU from `rows`/`table_packing`, one dynamic
   AIR per `non_primitives` entry through the registered plug-in, unknown op ⇒ error);
+* the declared-width check of `verify` (fix of F-C16-1): the preprocessed width `stark_common`
+  declares for every instance must be the width the rebuilt AIR reads, else `Err`;
 * the metadata-dependent part of `verify_batch`: instance-count check, the symbolic evaluation
   of every AIR against the *declared* preprocessed width (an AIR that reads more preprocessed
-  columns than `stark_common` declares indexes out of bounds: distinguished outcome `panic`),
-  the opened-values shape checks, the preprocessed metadata checks;
+  columns than declared would index out of bounds: distinguished outcome `panic`, kept in the
+  model so that its unreachability is a theorem, `P3R.C16.verify_never_panics`), the
+  opened-values shape checks, the preprocessed metadata checks;
 * everything cryptographic (PCS opening, out-of-domain evaluation, LogUp terminal sum) is a
   *parameter* `crypto : Sys → Bool` of the verifier model ("does the fixed proof body verify
   against this constraint system, these public values and this preprocessed binding").
@@ -228,11 +231,14 @@ def underDeclared : List AirDesc → List Nat → Bool
   | a :: as, w :: ws => decide (w < a.prepW) || underDeclared as ws
   | _, _ => false
 
-/-- The metadata-dependent checks of `verify_batch` before the cryptographic part. `none` = all pass.
+/-- The declared-width check of `verify` followed by the metadata-dependent checks of
+`verify_batch` before the cryptographic part. `none` = all pass.
 (`body.mainW`, `body.prepOpened` have one entry per instance of the proof body.) -/
 def shapeStage (s : Sys) (body : Body) : Option Verdict :=
   let n := s.airs.length
-  if n ≠ body.n ∨ s.pvs.length ≠ n then some (.reject "shape")
+  -- `verify`, before `verify_batch`: declared preprocessed widths are the widths the AIRs read
+  if declaredWidths s.common n ≠ s.airs.map AirDesc.prepW then some (.reject "prep-width")
+  else if n ≠ body.n ∨ s.pvs.length ≠ n then some (.reject "shape")
   else if (match s.common with | some c => c.instances.length != n | none => false) then some (.reject "shape")
   -- first loop: symbolic evaluation of every AIR against the declared preprocessed width
   else if underDeclared s.airs (declaredWidths s.common n) then some .panic
